@@ -775,6 +775,70 @@ def wide_probe(run, work):
                   "i64 index 4294967297 on [3]i32 is narrowed to i32 before the bounds check: expected ['0'] then panic, got %s rc=%s" % (got, rc),
                   {"program": WIDE_PROBE, "expected_stdout": [0], "expected_panic": True, "observed_stdout": got, "observed_rc": rc})
 
+# ------------------------------------------------------------------ typed-index family (reference-free, spec-side oracle)
+IDX_TYPES = ["i8", "i16", "i32", "i64", "u8", "u16", "u32", "u64"]
+def _trange(t):
+    b = int(t[1:])
+    return (-(1 << (b - 1)), (1 << (b - 1)) - 1) if t[0] == "i" else (0, (1 << b) - 1)
+
+def typed_index_family(run, work, quick):
+    """The index has any integer type; it starts from a literal and is stepped in a loop (the form the constant-index rule admits),
+    so its run-time values are not the recorded constant: an in-range value selects exactly element v mod N, every other value of the
+    type - also one that exists only because the type is wider than i32 or unsigned (2^31, 2^32 - 1, 2^32 + 1, 2^63 ...) - must end in
+    a panic before the access (seed C04e: u32 values >= 2^31 were taken as negative indices). Rejection at compile time is allowed."""
+    N = 4
+    elems = [10, 20, 30, 40]
+    jobs = []
+    for t in IDX_TYPES:
+        lo, hi = _trange(t)
+        sg = lo < 0
+        tours = [(2, -1, 8), (1, 1, 5), (-N if sg else 0, 1, 2 * N if sg else N), (0, hi, 2), (1, hi, 2), (N - 1, hi - N + 1, 2)]
+        for big in (2 ** 31, 2 ** 32 + 1, 2 ** 32 - 1, 2 ** 63, 2 ** 31 - 1, 255, 256, 65535, 65537):
+            if big <= hi: tours.append((run.rng.choice([0, 1, 2]), big, 2))
+        if sg: tours += [(-1, lo + 1, 2), (0, lo, 2)]
+        if quick and len(tours) > 7: tours = tours[:4] + run.rng.sample(tours[4:], 3)
+        for (st, d, it) in tours:
+            jobs.append((t, st, d, it, run.rng.random() < 0.4))
+    srcs, exps = {}, {}
+    for k, (t, st, d, it, write) in enumerate(jobs):
+        lo, hi = _trange(t); M = hi - lo + 1
+        L = ['import "std/io";', "", "fn main() {", "    let a: [%d]i32 = [%s];" % (N, ", ".join(map(str, elems))),
+             "    let i: %s = %d;" % (t, st), "    let k := 0;", "    while k < %d {" % it]
+        L += (["        a[i] = 100 + k;", "        io::Println(a[0], a[1], a[2], a[3]);"] if write else ["        io::Println(a[i]);"])
+        L += ["        i = i %s %d;" % ("+" if d >= 0 else "-", abs(d)), "        k = k + 1;", "    }", '    io::Println("end");', "}", ""]
+        out, a, pan, i = [], list(elems), False, st
+        for kk in range(it):
+            if not (-N <= i < N): pan = True; break
+            if write: a[i % N] = 100 + kk; out.append(" ".join(map(str, a)))
+            else: out.append(str(a[i % N]))
+            i = (i + d - lo) % M + lo
+        srcs[k] = "\n".join(L); exps[k] = (out + ([] if pan else ["end"]), pan)
+    def one(k):
+        d = work.sub("tix%d" % k)
+        f = os.path.join(d, "main.fer")
+        open(f, "w").write(srcs[k])
+        exe = os.path.join(d, "prog")
+        crc, co, ce = common.ferret(["-o", exe, f], cwd=d, timeout=120)
+        if crc != 0 or not os.path.exists(exe):
+            return ("rejected", (co + ce)[-300:])
+        rc, out, err = run_pty(exe)
+        return ("ran", rc, out.split("\n")[:-1] if out.endswith("\n") else out.split("\n"))
+    res = common.pmap(one, range(len(jobs)), workers=6)
+    for k, r in enumerate(res):
+        t, st, d, it, write = jobs[k]
+        exp_out, exp_panic = exps[k]
+        run.case(srcs[k], nontrivial=True)
+        if r[0] == "rejected":
+            run.count("typed-index:%s:rejected-at-compile-time" % t)
+            continue
+        run.count("typed-index:%s:%s" % (t, "panic" if exp_panic else "in-range"))
+        _, rc, out = r
+        if not ((out == exp_out) and ((rc != 0) == exp_panic)):
+            run.violation("typed-index:%s:%s" % (t, "panic" if exp_panic else "value"),
+                          "[4]i32 %s with an index i: %s = %d stepped by %d: expected stdout %s and %s, observed %s rc=%s"
+                          % ("write" if write else "read", t, st, d, exp_out, "a panic" if exp_panic else "normal exit", out[:10], rc),
+                          {"program": srcs[k], "expected_stdout": exp_out, "expected_panic": exp_panic, "observed_stdout": out[:20], "observed_rc": rc})
+
 def classify(sc):
     """root-cause class of a property failure (used as the finding key, so that one defect = one key)"""
     exp, got = sc.get('pout', []), sc.get('out', [])
@@ -903,6 +967,7 @@ def main(run):
                                           ("scenarios containing array writes (open finding %s)" % K2, gate_writes),
                                           ("index variables wider than i32 or unsigned are outside ArrLang (i32 scalars); one fixed wide-index probe runs instead", True)) if on]
     wide_probe(run, work)
+    typed_index_family(run, work, run.tier == "quick")
     def gated(sc):
         if gate_reads and has_var_read(sc['body']): return True
         if gate_writes and has_write(sc['body']): return True
